@@ -163,7 +163,7 @@ def run_case(case):
                 for t in v["threads"]:
                     targs += ["--threads", t]
                 vroots = [roots[k] for k in v["perm"]]
-                plan = list(bad) + [rule(kind=k, act="delay:%d" % us, prefix=rd.world, count="inf") for k, us, _ in v["delays"]]
+                plan = list(bad) + [rule(kind=k, act="delay:%d" % us, prefix=rd.world, count=max(1, 10_000_000 // us)) for k, us, _ in v["delays"]]   # at most 10 s of injected delay per rule: with a 1-byte read buffer a run issues 10^5 reads
                 if v["stdin"]:
                     res = ops.group(rd, [], base_args + targs + ["--stdin"], env=env, seed=v["seed"], plan=plan,
                                     stdin=b"\n".join(vroots) + b"\n") if all(b"\n" not in r for r in vroots) else None
